@@ -93,10 +93,14 @@ func runC08(c *core.Ctx) {
 			return len(ir.Calls(fn, func(ci ssa.CallInstruction) bool { return ci.Common().StaticCallee() == kf })) == 1
 		}
 		c.Decide(kf != nil && usesKey(add) && usesKey(get), "C08.list-codec", add, "writer and reader of the leaf list use genCrossStatesKey(height)", c.P.Rel(add.Pos()), "")
-		loopsW := eng.FindSliceLoops(add, func(v ssa.Value) bool { return ir.Strip(v) == ssa.Value(add.Params[2]) })
+		hostW, loopsW, releaseW := sliceLoopsVia(add, func(v ssa.Value) bool { return ir.Strip(v) == ssa.Value(add.Params[2]) })
+		defer releaseW()
+		if hostW != add {
+			c.Attribute(hostW, add)
+		}
 		okW := false
 		for _, lp := range loopsW {
-			okW = eng.IterationMustExec(c, "C08.list-codec", add, lp.Header, lp.Body, "the loop over crossStates", "sink.WriteHash(element)", func(in ssa.Instruction) bool {
+			okW = eng.IterationMustExec(c, "C08.list-codec", hostW, lp.Header, lp.Body, "the loop over crossStates", "sink.WriteHash(element)", func(in ssa.Instruction) bool {
 				ci, ok := in.(ssa.CallInstruction)
 				if !ok {
 					return false
@@ -455,13 +459,13 @@ func runC08(c *core.Ctx) {
 			a := seek.Common().Args
 			whence, okw := ir.ConstInt(a[2])
 			okOff := false
-			if mul, isM := ir.Strip(a[1]).(*ssa.BinOp); isM && mul.Op == token.MUL {
+			{
 				isCount := func(v ssa.Value) bool {
 					cl, _ := ir.CallOf(ir.Strip(v))
 					return cl != nil && cl.Common().StaticCallee() == gs && ir.Strip(cl.Common().Args[0]) == ssa.Value(paramByName(fn, "tree_size"))
 				}
 				isSz := func(v ssa.Value) bool { k, okk := ir.ConstInt(ir.Strip(v)); return okk && k == ksz }
-				okOff = (isCount(mul.X) && isSz(mul.Y)) || (isCount(mul.Y) && isSz(mul.X))
+				okOff = storedHashOffset(a[1], isCount, isSz, 0)
 			}
 			c.Decide(okw && whence == 0 && okOff, "C08.node-store", fn, "writer position = getStoredHashNum(tree_size) × UINT256_SIZE from the start of the file", c.P.Rel(seek.Pos()), sprintf("whence %d const %v offset ok %v", whence, okw, okOff))
 			eng.Dominates(c, "C08.node-store", fn, eng.NamedGuard{Name: "Seek err==nil", G: ir.ErrNil(func(x *ssa.Call) bool { return x == seek })}, succ, "store returned", nil)
